@@ -42,7 +42,10 @@ TRUSTED = ["modelled not verified: gRPC transport, Pebble flush (exercised throu
            "two-leaders-same-term / shard-term-regressed on the RPC and Store log of both processes",
            "ConfigChanged is parked inside ApplyClusterChanges through the slog.Error report of an unplaceable namespace (harness slog handler); "
            "if that report disappears the cfgrace cases are not evaluated (counted), never an alarm"]
-ASSUMES = ["store_atomic: the metadata provider's Store is all-or-nothing (memory, configmap; file provider after the O-11 fix)",
+ASSUMES = ["the 'best log wins' theorems take the heads REPORTED in the NewTerm answers as inputs; that a node's reported head is its true, "
+           "final log head is C04's theorem (c04_newterm_reports_true_head); the composition is checked on real nodes by the quorum cases "
+           "of the nodeterm leg (real controllers in scripted states -> NewTerm -> real selectNewLeader -> actual logs read afterwards)",
+           "store_atomic: the metadata provider's Store is all-or-nothing (memory, configmap; file provider after the O-11 fix)",
            "store_persists (formerly store_succeeds_before_continue, now the explicit trace hypothesis ~In ACoordStoreGiveUp): the controller "
            "does not carry on before its Store succeeded; failed attempts that are retried (ACoordStoreFail) and crashes during the outage "
            "are inside the proved traces; exercised on the real code by the sfault cases; namespace of the shard present in the cluster status",
@@ -53,7 +56,9 @@ RULE = ("sel: response maps of 0..7 servers with ties, stale-term-longer-log, em
         "fstore: file Store interrupted after k bytes; sfault: coordinator in child processes on the real file provider behind a flaky wrapper "
         "(Store calls j..j+k-1 fail, k in 1..6, or the first Gets fail) during an election / a node swap / ConfigChanged, optional kill at "
         "BecomeLeader, then a new coordinator process on the same store with the installed leader unreachable; distinct by parameters; cfgrace: real coordinator, ConfigChanged overlapping an election retry up to a pending "
-        "BecomeLeader (bl) or a completed election (full), kill, restart; distinct by (mode, initial term); node: request sequences (NewTerm/BecomeLeader/Truncate with lower/equal/higher terms, "
+        "BecomeLeader (bl) or a completed election (full), kill, restart; distinct by (mode, initial term); quorum: three real nodes in scripted states before NewTerm (entries synced/acked, an entry appended with the sync round parked "
+        "inside wal.Sync, leader stream attached / broken, restarted, leader with writes), responses fed to the real selectNewLeader, the "
+        "model's candidates evaluated on the TRUE heads read from the logs afterwards, distinct by script; node: request sequences (NewTerm/BecomeLeader/Truncate with lower/equal/higher terms, "
         "clean restarts, crash images), distinct by sequence")
 
 
@@ -97,6 +102,6 @@ LEGS = [
     {"name": "coord", "harness": "coord", "model": "coord", "n_quick": 300, "n_thorough": 6000,
      "corpus": "corpus/coord", "timeout": 600, "timeout_thorough": 3000, "compare": compare},
     {"name": "nodeterm", "harness": "nodeterm", "model": "coord", "n_quick": 150, "n_thorough": 3000,
-     "corpus": "corpus/coord", "timeout": 600, "timeout_thorough": 3000},
+     "corpus": "corpus/coord", "timeout": 600, "timeout_thorough": 3000, "compare": compare},
 ]
 
